@@ -92,3 +92,17 @@ func SortedKeys[M ~map[string]V, V any](m M) []string {
 	sort.Strings(ks)
 	return ks
 }
+
+
+// earlySink, in a worker process, hands the complete result of an execution to the orchestrator BEFORE the system
+// under test is torn down. A panic of the system under test during teardown (after its context was cancelled; e.g. a
+// select without a ctx.Done case that can only leave through its timeout panic) then does not cost the execution's
+// verdict: the orchestrator uses the early result and counts the teardown crash.
+var earlySink func(Result)
+
+// EarlyResult is called by an executor when the execution's verdict is complete and only teardown remains.
+func EarlyResult(r *Result) {
+	if earlySink != nil {
+		earlySink(*r)
+	}
+}
